@@ -129,7 +129,7 @@ def run(tier: str, seed: int, t0: float) -> int:
     stats.counts.update({f"approved:{k}": v for k, v in approved.items()})
     for h in HELPERS:
         if approved.get(h, 0) < 20:
-            raise core.MachineryError(f"vacuity gate: approved:{h}={approved.get(h, 0)} < 20")
+            core.vacuity(out, f"vacuity gate: approved:{h}={approved.get(h, 0)} < 20")
     return core.finish("C12", tier, seed, stats, out, t0,
                        rule="(document, helper arguments): every position x depth (can_split), position (can_join, join_point both directions), position pair "
                             "(lift_target, find_wrapping x wrapper types), position x node type (insert_point), position x slice (drop_point) on TLC-generated "
